@@ -17,7 +17,13 @@ def fired(world, result, probes):
         "degenerate_batch_gt_n": int(world.get("batch_size", 0) > world.get("n", 10**9)),
         "degenerate_zero_epochs_or_steps": int(world.get("max_epochs", 1) == 0 or world.get("steps", 1) == 0),
         "degenerate_patience_0": int(world.get("max_patience", 1) == 0),
+        "loss_near_tie": 0,
     }
+    vals = sorted(c["loss"]["value"] for c in calls if c["kind"] != "P" and math.isfinite(c["loss"]["value"]))
+    for a, b in zip(vals, vals[1:]):
+        if a != b and abs(a - b) <= 1e-5 * max(abs(a), abs(b), 1e-3):
+            f["loss_near_tie"] = 1
+            break
     for c in calls:
         if c["kind"] == "P":
             continue
